@@ -142,10 +142,11 @@ inline void addPawnMoves(std::vector<Mv>& out, int from, int to, bool white) {
 }
 
 /** All pseudo-legal moves (castling included only when fully legal w.r.t. attacked squares). */
-inline std::vector<Mv> pseudoLegal(const Board& b) {
+inline std::vector<Mv> pseudoLegal(const Board& b, int onlyFrom = -1) {
     std::vector<Mv> out;
     bool w = b.wtm;
     for (int s = 0; s < 64; s++) {
+        if (onlyFrom >= 0 && s != onlyFrom) continue;
         int p = b.sq[s];
         if (!p || isWhiteP(p) != w) continue;
         int x = X(s), y = Y(s), t = typeOf(p);
